@@ -447,6 +447,7 @@ def run_file_seed(seed_i, tier, part):
     part["runs"] += 1
     c[f"knob:enc={enc},blocked={int(base['blocked'])},cfg={'packaged' if base['config'] == 'packaged' else 'generated'},n={len(stored)}"] += 1
     fd = hashlib.sha1(image).hexdigest()[:12]
+    hangs = 0
     h = hashlib.sha256(canon(base).encode())
     n = len(stored)
     ks = range(1, n + 1) if n <= 10 else sorted(set([1, 2, n // 2, n - 1, n, 11, 12, 16, 17, 32, 33]) & set(range(1, n + 1)))
@@ -475,7 +476,13 @@ def run_file_seed(seed_i, tier, part):
                     scn["tool"] = "mideu"
                 else:
                     scn["tool"] = "mci_ipm_to_csv"
+            if hangs >= 3:
+                continue
             fails, info = judge(scn)
+            if info["kind"] == "budget":
+                hangs += 1
+                if hangs >= 3:
+                    c["probe:base_abandoned_after_repeated_nontermination"] += 1
             part["evals"] += 1
             part["events"] += 1
             part["steps"] += info.get("steps", 0)
@@ -499,7 +506,7 @@ def run_file_seed(seed_i, tier, part):
                     v["scenario"] = scn
                     part["fails"].append(v)
     # two bad records, iteration continued after the first (message-level) error
-    if n >= 3:
+    if n >= 3 and hangs < 3:
         rng = Streams(seed_i)["faults"]
         for _ in range(6):
             k1 = rng.randint(1, n - 1)
@@ -523,7 +530,7 @@ def run_file_seed(seed_i, tier, part):
                 if sum(1 for x in part["fails"] if x["sig"] == v["sig"]) < 1 and len(part["fails"]) < 12:
                     v["scenario"] = scn
                     part["fails"].append(v)
-    if base["config"] == "packaged" and n >= 1:
+    if base["config"] == "packaged" and n >= 1 and hangs < 3:
         cf, nev = judge_churn(dict(base, churn={"seed": seed_i, "iterations": 40}))
         part["evals"] += nev
         c["fault:configuration_object_churn"] += nev
